@@ -51,3 +51,18 @@ package macat
 //@ func (*App).Run
 //@   before call:ListenOptions#1 assert arg0 == addr && arg1 == opts && fresh(opts, "loop2:head")
 //@   before call:DialOptions#1 assert arg0 == addr && arg1 == opts && fresh(opts, "loop3:head")
+//@
+//@ func (*App).Run
+//@   ghost info1 = result at call:Info#1
+//@   ghost info2 = result at call:Info#2
+//@   before call:Info#1 assert !isnil(a.sock) && len(a.bindAddr) + len(a.dialAddr) > 0 && len(args) == 0
+//@   before call:SetOption#1 assert info1.Self == mangos.ProtoSub && arg0 == mangos.OptionSubscribe
+//@   before call:SetOption#2 assert info1.Self == mangos.ProtoSub && arg0 == mangos.OptionSubscribe && len(a.subscriptions) == 0
+//@   before call:recvLoop#1 assert info2.Self == mangos.ProtoPull || info2.Self == mangos.ProtoSub
+//@   before call:sendLoop#1 assert info2.Self == mangos.ProtoPush || info2.Self == mangos.ProtoPub
+//@   before call:sendRecvLoop#1 assert (info2.Self == mangos.ProtoPair || info2.Self == mangos.ProtoStar || info2.Self == mangos.ProtoBus) && a.sendData != nil
+//@   before call:recvLoop#2 assert (info2.Self == mangos.ProtoPair || info2.Self == mangos.ProtoStar || info2.Self == mangos.ProtoBus) && a.sendData == nil
+//@   before call:sendRecvLoop#2 assert info2.Self == mangos.ProtoSurveyor || info2.Self == mangos.ProtoReq
+//@   before call:replyLoop#1 assert info2.Self == mangos.ProtoRep || info2.Self == mangos.ProtoRespondent
+//@   before call:SetOption#3 assert arg0 == mangos.OptionRecvDeadline && a.recvTimeout >= 0 && is_duration(arg1) && int_of(arg1) == a.recvTimeout
+//@   before call:SetOption#4 assert arg0 == mangos.OptionSendDeadline && a.sendTimeout >= 0 && is_duration(arg1) && int_of(arg1) == a.sendTimeout
